@@ -172,6 +172,8 @@ def r4(ctx):
     eb = prog.body("EventBuffer::reset")
     sym = ctx.sym(eb)
     sets = [b for b in call_sites(eb, r"Cell::set$") if mentions(sym.call_expr(b.term), lambda s: s[0] == "agg" and s[2] == "Unselected")]
+    for ch in prog.children(eb):  # the same loop written as events.iter().for_each(|..| ..)
+        sets += [b for b in call_sites(ch, r"Cell::set$") if mentions(ctx.sym(ch).call_expr(b.term), lambda s: s[0] == "agg" and s[2] == "Unselected")]
     ctx.check(bool(sets), "EventBuffer::reset:unselect", "every record is set to Unselected", eb.where(line=eb.line))
     z = [b for b in call_sites(eb, r"Counters::zero$") if mentions_field(sym.call_expr(b.term), "written")]
     ret = return_blocks(eb)
